@@ -70,6 +70,10 @@ func (ctx Context) createFirstLinePango(layout *text.TextLayoutPango,
 			if blockEllipsis.Tag == pr.Auto {
 				ellipsis = "…"
 			}
+			// the text of the layout is modified below : restore it when done, since
+			// the same box may be drawn again
+			originalText := string(pl.Text)
+			defer layout.SetText(originalText)
 			// Remove last word if hyphenated
 			newText := pl.Text
 			if hyph := style.HyphenateCharacter; strings.HasSuffix(string(newText), hyph) {
